@@ -74,7 +74,12 @@ var addTop = opSpec{"add", []string{"d", "e"}, "v1"}
 // to stop a walk early): whatever the walk holds must be released on that path too.
 var walkStop = opSpec{"walkstop", nil, ""}
 
-var extras = []opSpec{addDeep, walkSorted, addTop, walkStop}
+// addRoot stores a value at the empty path: the root of an empty tree is the
+// one node that exists without holding a value, so a terminal Add there can
+// meet an Add that passes through it.
+var addRoot = opSpec{"add", []string{}, "v1"}
+
+var extras = []opSpec{addDeep, walkSorted, addTop, walkStop, addRoot}
 
 var alphaQuick = []opSpec{
 	{"add", ab, "v1"}, {"add", ac, "v1"}, {"add", ab, "v2"},
